@@ -15,13 +15,11 @@ use crate::common::machinery_failure;
 pub fn free_port() -> u16 {
     use std::sync::atomic::{AtomicU32, Ordering};
     static NEXT: AtomicU32 = AtomicU32::new(0);
-    let base = 20_000 + (std::process::id() % 97) * 300;
-    for _ in 0..2000 {
+    let base = 20_000 + (std::process::id() % 97) * 64;
+    for _ in 0..6000 {
         let k = NEXT.fetch_add(1, Ordering::SeqCst);
-        let p = (base + (k * 4) % 30_000) as u16;
-        if p < 1024 || p > 60_000 {
-            continue;
-        }
+        let p = 20_000 + ((base - 20_000 + k * 4) % 32_000);
+        let p = p as u16;
         let ok = (0..4).all(|i| {
             UdpSocket::bind(("0.0.0.0", p + i)).is_ok() && UdpSocket::bind(("::", p + i)).is_ok() && std::net::TcpListener::bind(("0.0.0.0", p + i)).is_ok() && std::net::TcpListener::bind(("::", p + i)).is_ok()
         });
@@ -245,6 +243,13 @@ impl TrackerChild {
 pub fn serve(args: &[String]) -> ! {
     let kind = args.first().map(|s| s.as_str()).unwrap_or("");
     let json = args.get(1).map(|s| s.as_str()).unwrap_or("{}");
+    // die with the driver, whatever way it exits
+    unsafe {
+        libc::prctl(libc::PR_SET_PDEATHSIG, libc::SIGKILL);
+        if libc::getppid() == 1 {
+            std::process::exit(4);
+        }
+    }
     crate::fault::install_from_env();
     let t0 = Instant::now();
     let r: Result<(), String> = match kind {
